@@ -220,6 +220,38 @@ theorem SRel.init {N : NumOps} (Q : QRel) (externs : List String)
   pinC := fun _ hp => by cases hp
   inv := hI
 
+/-- **change of context / closure-body relation** while no closures are related yet (e.g. right after the two
+one-sided preludes of a bundle have been run under the trivial context): only the consumer's invariant of the
+new context has to be established -/
+theorem SRel.rebase {N : NumOps} {Q Q' : QRel} {cx' : Cx} {β : Inj N} {σ σ' : State N} (h : SRel Q cx β σ σ')
+    (hf : ∀ a b, ¬ β.f a b) (hI : cx'.I N β σ σ') : SRel Q' cx' β σ σ' where
+  globals := h.globals
+  trace := h.trace
+  injC := h.injC
+  injT := h.injT
+  injF := h.injF
+  cell := h.cell
+  tbl := h.tbl
+  clo := fun hab => absurd hab (hf _ _)
+  strlib := h.strlib
+  front := h.front
+  pin := h.pin
+  pinR := h.pinR
+  pinT := h.pinT
+  pinC := h.pinC
+  inv := hI
+
+/-- what `runChunk` makes of the control result of its block -/
+def wrapCtl {N : NumOps} (r : Res N (Ctl N)) : Res N (List (Val N)) :=
+  match r with
+  | .ok (.ret vs) σ2 => .ok vs σ2
+  | .ok _ σ2 => .ok [] σ2
+  | .err v σ2 => .err v σ2
+  | .timeout => .timeout
+
+theorem runChunk_eq_wrapCtl {N : NumOps} (ρ : ExtOracle N) (n : Nat) (b : Block) (σ : State N) :
+    runChunk ρ n b σ = wrapCtl (execB (callClosure ρ n) ρ n ⟨[], []⟩ b σ) := rfl
+
 theorem runChunk_rel {N : NumOps} (ρ : ExtOracle N) (hρ : OracleFlat ρ) (hCF : ∀ n, cx.CF N ρ n (callClosure ρ n))
     (n : Nat) {b b' : Block} {D' : List DName} (h : VR cx [] (.b b) (.b b') D') {β : Inj N} {σ σ' : State N} (hs : SRel (VQ cx) cx β σ σ') :
     RRel (VQ cx) cx β AVs (runChunk ρ n b σ) (runChunk ρ n b' σ') := by
@@ -239,6 +271,18 @@ theorem observe_rel {N : NumOps} {β : Inj N} {r r' : Res N (List (Val N))} (h :
   · exact .inl ⟨h, rfl⟩
   · exact .inl ⟨h, rfl⟩
   · exact .inr (.inr rfl)
+
+/-- **outcome of two blocks related by `SoundB`, run from GIVEN environments and states** (the rest of a program
+after both sides have executed their own preludes): the final-theorem form of `runChunk_vr''` without the empty
+initial environment -/
+theorem observe_of_soundB {N : NumOps} {D D' : List DName} {b b' : Block} (h : SoundB (VQ cx) cx D b b' D')
+    (ρ : ExtOracle N) (hρ : OracleFlat ρ) (hCF : ∀ n, cx.CF N ρ n (callClosure ρ n)) (n : Nat) {β : Inj N}
+    {env env' : Env N} {σ σ' : State N} (hs : SRel (VQ cx) cx β σ σ') (he : EnvOK β D env env') :
+    (cx.upto = true ∧ observe (wrapCtl (execB (callClosure ρ n) ρ n env b σ)) = .timeout) ∨
+      (cx.uptoR = true ∧ observe (wrapCtl (execB (callClosure ρ n) ρ n env' b' σ')) = .timeout) ∨
+      observe (wrapCtl (execB (callClosure ρ n) ρ n env' b' σ')) =
+        observe (wrapCtl (execB (callClosure ρ n) ρ n env b σ)) :=
+  observe_rel (RRel.retWrap (h.2 N _ ρ n env env' σ σ' β ⟨hCF n, callClosure_ok ρ hρ hCF n, hρ⟩ hs he))
 
 /-- **Observational refinement, most general form**: same outcome, or (only when `cx.upto`) the original exhausts
 its budget, or (only when `cx.uptoR`) the rewritten program does -/
